@@ -189,6 +189,15 @@ func (x *exec) run() (f *report.Failure) {
 			return nil
 		})
 	}
+	if cfg.BalN > 0 && cfg.BalN <= 1<<20 {
+		all := append([]uint64{}, cfg.Bal...)
+		for i := 0; i < cfg.BalN; i++ {
+			all = append(all, cfg.BalEach)
+		}
+		cp := *cfg
+		cp.Bal, cp.BalN = all, 0
+		cfg = &cp
+	}
 	bal := make([]common.Gwei, len(cfg.Bal))
 	for i, b := range cfg.Bal {
 		bal[i] = common.Gwei(b)
@@ -261,6 +270,22 @@ func (x *exec) do(op *Op) *report.Failure {
 		return x.doSlot(op)
 	case KAtt:
 		return x.doAtt(op)
+	case KAttN:
+		if op.N > 1<<20 {
+			return report.Failf("harness/bad-op", "attn of %d votes", op.N)
+		}
+		for v := op.V; v < op.V+op.N; v++ {
+			o := *op
+			o.K, o.V = KAtt, v
+			if f := x.doAtt(&o); f != nil {
+				f.Msg = fmt.Sprintf("(vote %d of %d in a row) %s", v-op.V+1, op.N, f.Msg)
+				return f
+			}
+		}
+		if op.N >= 1<<16 {
+			x.tag("vote:>=65536-changes-between-two-head-computations")
+		}
+		return nil
 	case KUpd:
 		return x.doUpd(op)
 	case KPin:
